@@ -186,6 +186,71 @@ Theorem C14_combine_total : forall prev cur same,
 Proof. exact combine_total. Qed.
 Print Assumptions C14_combine_total.
 
+(* ---- subtypes.  A component carries the LIST of its domain's subtype hits (HMMResult.internal_hits, a forest:
+   find_subtypes attaches every subtype hit overlapping the domain, and transATor hits below a Trans-AT-KS hit);
+   Component.subtype / subtypes are modelled through HMMResult.detailed_names.  All theorems above quantify over
+   components of this type. ---- *)
+
+(* Component.subtypes (detailed_names[1:]) is exactly the chain of names obtained by walking down while a depth
+   holds exactly one hit: it stops at the first depth with no hit or with several hits *)
+Theorem C14_subtypes_is_single_hit_chain : forall c ns, subtypes c = ns <-> chain (sub c) ns.
+Proof. exact subtypes_chain. Qed.
+Print Assumptions C14_subtypes_is_single_hit_chain.
+
+(* Component.subtype is a name iff the domain holds EXACTLY ONE first-level subtype hit (then it is that hit's
+   name); with no hit or with several hits - equal or different names, in any order - there is no subtype; and the
+   two views agree: subtype is the head of subtypes *)
+Theorem C14_subtype_unambiguous_only : forall c,
+  (forall k, subtype c = Some k <-> exists hs, sub c = [Hit k hs]) /\
+  (subtype c = None <-> length (sub c) <> 1%nat) /\
+  subtype c = hd_error (subtypes c).
+Proof. exact subtype_unambiguous_only. Qed.
+Print Assumptions C14_subtype_unambiguous_only.
+
+(* is_trans_at: PKS, a starter, no loader, and the starter is an UNAMBIGUOUS Trans-AT-KS (its only first-level
+   subtype hit is Trans-AT-KS, whatever lies below it) or a Trans-AT docking domain is among the others *)
+Theorem C14_trans_at_iff : forall m,
+  is_trans_at m = true <->
+  exists s, m_starter m = Some s /\ is_pks m = true /\ m_loader m = None /\
+            ((exists hs, sub s = [Hit S_Trans_AT_KS hs]) \/ existsb c_atd (m_others m) = true).
+Proof. exact is_trans_at_iff. Qed.
+Print Assumptions C14_trans_at_iff.
+
+Theorem C14_iterative_iff : forall m,
+  is_iterative m = true <-> exists s hs, m_starter m = Some s /\ sub s = [Hit S_Iterative_KS hs].
+Proof. exact is_iterative_iff. Qed.
+Print Assumptions C14_iterative_iff.
+
+(* the trans-AT test of the layout rules and of the run-time specification (spec_trans_at, used in
+   C14_layout_inv, C14_carrier_protein_clauses: "a KR behind the carrier protein only in a trans-AT module"),
+   spelled out on the component list *)
+Theorem C14_spec_trans_at_iff : forall cs,
+  spec_trans_at cs = true <->
+  existsb c_pks cs = true /\ existsb c_loader cs = false /\
+  exists s, find c_starter cs = Some s /\
+            ((exists hs, sub s = [Hit S_Trans_AT_KS hs]) \/ existsb c_atd cs = true).
+Proof. exact spec_trans_at_iff. Qed.
+Print Assumptions C14_spec_trans_at_iff.
+
+(* an ambiguous (or missing) subtype call never makes a module trans-AT: in every module of
+   build_modules_for_cds whose starter holds no or several first-level subtype hits and which has no Trans-AT
+   docking domain, is_trans_at is false and completeness needs a loader *)
+Theorem C14_ambiguous_subtype_not_trans_at : forall domains ms,
+  Forall (fun c => c_classified c = true) domains -> build_modules_for_cds domains = Ok ms ->
+  Forall (fun m => forall s, find c_starter (m_comps m) = Some s -> length (sub s) <> 1%nat ->
+                   existsb c_atd (m_comps m) = false ->
+                   is_trans_at m = false /\ (is_complete m = true -> isSome (m_loader m) = true)) ms.
+Proof. exact build_ambiguous_not_trans_at. Qed.
+Print Assumptions C14_ambiguous_subtype_not_trans_at.
+
+(* the same for every module that obeys the rules, i.e. (C14_combine_total) for merged modules too *)
+Theorem C14_rules_ambiguous_subtype_not_trans_at : forall m s,
+  rules_ok m -> find c_starter (m_comps m) = Some s -> length (sub s) <> 1%nat ->
+  existsb c_atd (m_comps m) = false ->
+  is_trans_at m = false /\ (is_complete m = true -> isSome (m_loader m) = true).
+Proof. exact ambiguous_not_trans_at. Qed.
+Print Assumptions C14_rules_ambiguous_subtype_not_trans_at.
+
 (* the generated tables satisfy what the proofs need (re-checked when the source changes) *)
 Theorem C14_table_double_cases_plain :
   forallb (fun case => forallb plain_mod_label case) Tables_gen.c14_double_transporter_cases = true.
@@ -200,22 +265,22 @@ Print Assumptions C14_table_cases_fit_window.
 
 (* the classes are disjoint as far as the state machine relies on it *)
 Theorem C14_table_classes :
-  forallb (fun l => class_ok (mkComp l 0 0 0)) (concat Tables_gen.c14_classification_order) = true.
+  forallb (fun l => class_ok (mkComp l [] 0 0)) (concat Tables_gen.c14_classification_order) = true.
 Proof. exact table_class_ok. Qed.
 Print Assumptions C14_table_classes.
 
 (* ---- non-vacuity: a real assembly line, incl. the double carrier protein case ---- *)
 Example C14_ex_build :
   exists ms, build_modules_for_cds
-    [mkComp 41 1 0 10; mkComp 1 0 1 20; mkComp 1 0 2 30; mkComp 28 0 3 40; mkComp 11 0 4 50; mkComp 41 0 5 60]
+    [mkComp 41 [Hit 1 []] 0 10; mkComp 1 [] 1 20; mkComp 1 [] 2 30; mkComp 28 [] 3 40; mkComp 11 [] 4 50; mkComp 41 [] 5 60]
     = Ok ms /\ length ms = 2%nat /\ Forall (fun m => reload m = Ok m /\ layout_spec (m_comps m) = true) ms.
 Proof. eexists. split; [vm_compute; reflexivity|]. split; [reflexivity|]. repeat constructor. Qed.
 
 (* a merge that happens, with the trailing KR of the trans-AT case: [KS(trans-AT)] + [ACP] [KR] *)
 Example C14_ex_combine :
   exists p c m p' c',
-    build_modules_for_cds [mkComp 41 1 0 10] = Ok p /\
-    build_modules_for_cds [mkComp 1 0 1 10; mkComp 40 0 2 20] = Ok c /\
+    build_modules_for_cds [mkComp 41 [Hit 1 []] 0 10] = Ok p /\
+    build_modules_for_cds [mkComp 1 [] 1 10; mkComp 40 [] 2 20] = Ok c /\
     combine_modules true c p = Ok (Some m, p', c') /\ length (m_comps m) = 3%nat /\ c' = [].
 Proof. do 5 eexists. repeat split; vm_compute; reflexivity. Qed.
 
@@ -224,8 +289,8 @@ Proof. do 5 eexists. repeat split; vm_compute; reflexivity. Qed.
 Example C14_ex_third_cp_refused :
   exists m1 m2 m3,
     build_modules_for_cds
-      [mkComp 41 0 0 10; mkComp 1 0 1 20; mkComp 1 0 2 30; mkComp 28 0 3 40; mkComp 11 0 4 50;
-       mkComp 1 0 5 60; mkComp 28 0 6 70; mkComp 11 0 7 80] = Ok [m1; m2; m3] /\
+      [mkComp 41 [] 0 10; mkComp 1 [] 1 20; mkComp 1 [] 2 30; mkComp 28 [] 3 40; mkComp 11 [] 4 50;
+       mkComp 1 [] 5 60; mkComp 28 [] 6 70; mkComp 11 [] 7 80] = Ok [m1; m2; m3] /\
     map cid (m_comps m1) = [0; 1; 2; 3; 4] /\ map cid (m_comps m2) = [5] /\ map cid (m_comps m3) = [6; 7] /\
     cnt c_cp (m_comps m1) = 2%nat /\ layout_spec (m_comps m1) = true.
 Proof. exact third_cp_refused. Qed.
@@ -233,8 +298,8 @@ Proof. exact third_cp_refused. Qed.
 (* supply order: the LnmJ layout KS ACP ACP LPG Beta listed by profile (ACP ACP Beta LPG KS) is the same
    single module as in position order; both hypotheses of C14_supply_order_independent are met *)
 Example C14_ex_supply_order :
-  let by_position := [mkComp 41 1 0 10; mkComp 1 0 1 20; mkComp 1 0 2 30; mkComp 28 0 3 40; mkComp 11 0 4 50] in
-  let by_profile := [mkComp 1 0 1 20; mkComp 1 0 2 30; mkComp 11 0 4 50; mkComp 28 0 3 40; mkComp 41 1 0 10] in
+  let by_position := [mkComp 41 [Hit 1 []] 0 10; mkComp 1 [] 1 20; mkComp 1 [] 2 30; mkComp 28 [] 3 40; mkComp 11 [] 4 50] in
+  let by_profile := [mkComp 1 [] 1 20; mkComp 1 [] 2 30; mkComp 11 [] 4 50; mkComp 28 [] 3 40; mkComp 41 [Hit 1 []] 0 10] in
   Permutation by_position by_profile /\ NoDup (map qstart by_position) /\
   exists m, build_modules_for_cds by_profile = Ok [m] /\ build_modules_for_cds by_position = Ok [m] /\
             map cid (m_comps m) = [0; 1; 2; 3; 4] /\ cnt c_cp (m_comps m) = 2%nat.
@@ -244,7 +309,7 @@ Proof. exact supply_order_example. Qed.
    members are the modifications; the module meets the hypothesis of C14_slot_lists *)
 Example C14_ex_slot_lists :
   exists m, build_modules_for_cds
-      [mkComp 41 1 0 10; mkComp 1 0 1 20; mkComp 1 0 2 30; mkComp 28 0 3 40; mkComp 11 0 4 50] = Ok [m] /\
+      [mkComp 41 [Hit 1 []] 0 10; mkComp 1 [] 1 20; mkComp 1 [] 2 30; mkComp 28 [] 3 40; mkComp 11 [] 4 50] = Ok [m] /\
     reload m = Ok m /\ map cid (m_mods m) = [3; 4] /\ map cid (m_others m) = [2] /\
     map cid (others_pos (m_comps m)) = [2].
 Proof. exact slot_lists_example. Qed.
@@ -254,15 +319,15 @@ Proof. exact slot_lists_example. Qed.
 Example C14_ex_reversed_pair_refused :
   exists m1 m2 m3,
     build_modules_for_cds
-      [mkComp 41 1 0 10; mkComp 1 0 1 20; mkComp 1 0 2 30; mkComp 11 0 3 40; mkComp 28 0 4 50] = Ok [m1; m2; m3] /\
+      [mkComp 41 [Hit 1 []] 0 10; mkComp 1 [] 1 20; mkComp 1 [] 2 30; mkComp 11 [] 3 40; mkComp 28 [] 4 50] = Ok [m1; m2; m3] /\
     map cid (m_comps m1) = [0; 1] /\ map cid (m_comps m2) = [2] /\ map cid (m_comps m3) = [3; 4].
 Proof. exact reversed_pair_refused. Qed.
 
 (* the step invariant is met by a real intermediate state: [KS, ACP] about to take a second ACP *)
 Example C14_ex_step_hyps :
-  exists m, replay (empty_module true) [mkComp 41 1 0 10; mkComp 1 0 1 20] = Ok m /\
-    inv12 m [mkComp 1 0 2 30; mkComp 28 0 3 40; mkComp 11 0 4 50] /\
-    LQ m [mkComp 1 0 2 30; mkComp 28 0 3 40; mkComp 11 0 4 50].
+  exists m, replay (empty_module true) [mkComp 41 [Hit 1 []] 0 10; mkComp 1 [] 1 20] = Ok m /\
+    inv12 m [mkComp 1 [] 2 30; mkComp 28 [] 3 40; mkComp 11 [] 4 50] /\
+    LQ m [mkComp 1 [] 2 30; mkComp 28 [] 3 40; mkComp 11 [] 4 50].
 Proof.
   eexists. split; [vm_compute; reflexivity|]. split.
   - split; [discriminate|left; reflexivity].
@@ -270,3 +335,31 @@ Proof.
     + split; intros H; vm_compute in H; [exfalso; inversion H as [|? H1]; inversion H1|discriminate].
     + split; vm_compute; [reflexivity|repeat constructor].
 Qed.
+
+(* a KS with two first-level subtype hits, Trans-AT-KS listed first (hypotheses of
+   C14_ambiguous_subtype_not_trans_at met): KS, ACP, KR is [KS, ACP] (incomplete, not trans-AT) and [KR] *)
+Example C14_ex_ambiguous_ks :
+  exists m1 m2,
+    build_modules_for_cds
+      [mkComp 41 [Hit 1 []; Hit 3 []] 0 10; mkComp 1 [] 1 20; mkComp 40 [] 2 30] = Ok [m1; m2] /\
+    map cid (m_comps m1) = [0; 1] /\ map cid (m_comps m2) = [2] /\
+    is_trans_at m1 = false /\ is_complete m1 = false /\
+    map subtype (m_comps m1) = [None; None] /\ map subtypes (m_comps m1) = [[]; []].
+Proof. exact ambiguous_ks_example. Qed.
+
+(* an unambiguous Trans-AT-KS with a transATor clade below it: one complete trans-AT module, subtypes = both names *)
+Example C14_ex_nested_trans_at :
+  exists m,
+    build_modules_for_cds
+      [mkComp 41 [Hit 1 [Hit 6 []]] 0 10; mkComp 1 [] 1 20; mkComp 40 [] 2 30] = Ok [m] /\
+    is_trans_at m = true /\ is_complete m = true /\
+    map subtype (m_comps m) = [Some 1; None; None] /\ map subtypes (m_comps m) = [[1; 6]; []; []].
+Proof. exact nested_tat_example. Qed.
+
+(* a lone ambiguous KS is not merged with the ACP, KR of the next gene (compare C14_ex_combine) *)
+Example C14_ex_ambiguous_ks_not_merged :
+  exists p c,
+    build_modules_for_cds [mkComp 41 [Hit 1 []; Hit 3 []] 0 10] = Ok p /\
+    build_modules_for_cds [mkComp 1 [] 1 10; mkComp 40 [] 2 20] = Ok c /\
+    combine_modules true c p = Ok (None, p, c).
+Proof. exact ambiguous_ks_combine_example. Qed.
